@@ -1086,8 +1086,9 @@ struct Template(TokenStream);
 impl Template {
     fn new(input: Expr) -> Result<Self> {
         let this = Self(input.to_token_stream());
-        // `$` is replaced by a parenthesized expression, so it must stand where an expression can.
-        if parse2::<Expr>(this.apply(quote!((__placeholder)))).is_err() {
+        // `$` is replaced by a parenthesized place expression such as `(self.0)` or `(*__self_0)`,
+        // so it must stand where an expression (and not e.g. a pattern or a field name) can.
+        if parse2::<Expr>(this.apply(quote!((*__placeholder)))).is_err() {
             bail!(input.span(), "`$` can only be used as an expression in `key = ...`");
         }
         Ok(this)
